@@ -53,10 +53,10 @@ func c10Kinds() []keyKind {
 }
 
 type c10Iter struct {
-	next      func() (goat.Value, goat.Value, bool)
-	visited   map[int]bool
+	next       func() (goat.Value, goat.Value, bool)
+	visited    map[int]bool
 	throughout map[int]bool // snapshot keys never deleted since the snapshot
-	done      bool
+	done       bool
 }
 
 // one host-API history: returns protocol lines and the implementation's answers
@@ -292,10 +292,10 @@ func (c *Ctx) c10Scripts() error {
 			want = append(want, "0 0")
 		}
 		type loopCheck struct {
-			snapshot   map[int]int
-			delWhen    map[int]int // visiting key -> delete key
-			setWhen    map[int]int // visiting key -> set key (value 7)
-			startLine  int
+			snapshot  map[int]int
+			delWhen   map[int]int // visiting key -> delete key
+			setWhen   map[int]int // visiting key -> set key (value 7)
+			startLine int
 		}
 		var loops []loopCheck
 		nops := 3 + r.Intn(25)
